@@ -180,10 +180,11 @@ class AbstractResponderFunc():  # Not a real ABC.
     @permanent.setter
     def permanent(self, value):
         self._permanent = value
-        if value and self.enabled:
-            sac.CmdPeriod.remove(self.__on_cmd_period)
-        else:
-            sac.CmdPeriod.add(self.__on_cmd_period)
+        if self.enabled:  # enable() and disable() do it otherwise.
+            if value:
+                sac.CmdPeriod.remove(self.__on_cmd_period)
+            else:
+                sac.CmdPeriod.add(self.__on_cmd_period)
 
     def enable(self):
         '''Enable the responder to process incoming data.'''
